@@ -69,8 +69,13 @@ def run(chk):
     cases = []
     for i, m in enumerate(MODES):
         env = {} if m is None else {"BLOCKWATCH_LUA_MODE": m}
-        cases.append({"id": "m%d" % i, "files": {"a.py": '# <block check-lua="%s">\nx\n# </block>\n' % probe}, "diff": None, "args": [],
-                      "terminal": True, "env": env})
+        # several scripted blocks in one run (the interpreter of a later block must be as restricted as the first one's),
+        # one runtime worker for half of the modes so that the blocks run one after the other
+        nb = 10 if quick else 60
+        if i % 2:
+            env = dict(env, TOKIO_WORKER_THREADS="1")
+        cases.append({"id": "m%d" % i, "files": {"a.py": "".join('# <block name="p%d" check-lua="%s">\nx\n# </block>\n' % (k, probe) for k in range(nb))},
+                      "diff": None, "args": [], "terminal": True, "env": env})
     res = vlib.run_cli(cases, timeout=60)
     chk.exhaustive = True
     for i, m in enumerate(MODES):
@@ -79,31 +84,44 @@ def run(chk):
         if r["outcome"] != "ok" or not r.get("report"):
             chk.violation("probe run failed in mode %r: %s" % (m, (r.get("error") or r.get("stderr") or "")[:300]), {"concrete": cases[i]})
             continue
-        msg = r["report"]["a.py"][0]["data"]["lua_error"]
-        g = parse_probe(msg, m)
-        gpath = os.path.join(wd, "graph-%d.json" % i)
-        with open(gpath, "w") as f:
-            json.dump(g, f)
-        t = vlib.run_tlc("LuaCaps", cfg="LuaCaps", workers=1, timeout=300, env={"GRAPH": gpath}, heap="2g")
-        chk.states += t.distinct
-        chk.transitions += max(t.generated, 1)
-        chk.traces += 1
-        chk.notes.setdefault("graphs", []).append({"mode": m, "policy": g["mode"], "nodes": len(g["nodes"]), "edges": len(g["edges"]),
-                                                   "functions": sum(1 for n in g["nodes"] if n["t"] == "f"),
-                                                   "tlc_states": t.distinct, "works": {k: v for k, v in g["works"].items() if v}})
-        if not t.ok:
-            txt = t.violation or ""
-            if "nvariant" not in txt:
-                raise vlib.ToolError("LuaCaps failed for mode %r:\n%s" % (m, txt[-2000:]))
-            inv = [l for l in txt.split("\n") if "nvariant" in l]
-            # name what is wrong, from the graph itself
-            extra = []
-            allowed_sandbox = {"assert", "collectgarbage", "error", "getmetatable", "ipairs", "load", "next", "pairs", "pcall", "print",
-                               "rawequal", "rawget", "rawlen", "rawset", "select", "setmetatable", "tonumber", "tostring", "type", "warn",
-                               "xpcall", "_G", "_VERSION", "validate", "coroutine", "table", "string", "utf8", "math"}
-            if g["mode"] == "sandbox":
-                extra = sorted(set(g["globals"]) - allowed_sandbox)
-            chk.violation("mode %r (policy %s): %s; offending globals %s; working capabilities %s" % (
-                m, g["mode"], "; ".join(inv)[:200], extra, sorted(k for k, v in g["works"].items() if v)),
-                {"mode": m, "concrete": cases[i], "globals": g["globals"], "works": g["works"]})
+        # the probe's report is the string the script returned: it is quoted by the diagnostic (message or data)
+        def probe_text(d):
+            for v in list((d.get("data") or {}).values()) + [d.get("message", "")]:
+                if isinstance(v, str) and "PROBE|" in v:
+                    return v[v.index("PROBE|"):]
+            raise vlib.ToolError("probe output not found in diagnostic %s" % json.dumps(d)[:300])
+        diags = r["report"]["a.py"]
+        if len(diags) != nb:
+            chk.violation("mode %r: %d scripted blocks, %d diagnostics" % (m, nb, len(diags)), {"concrete": cases[i]})
+        graphs = {}
+        for d in diags:
+            g_ = parse_probe(probe_text(d), m)
+            graphs.setdefault(json.dumps(g_, sort_keys=True), g_)
+        chk.notes.setdefault("distinct_graphs_per_mode", {})[repr(m)] = len(graphs)
+        for gi_, g in enumerate(graphs.values()):
+            gpath = os.path.join(wd, "graph-%d-%d.json" % (i, gi_))
+            with open(gpath, "w") as f:
+                json.dump(g, f)
+            t = vlib.run_tlc("LuaCaps", cfg="LuaCaps", workers=1, timeout=300, env={"GRAPH": gpath}, heap="2g")
+            chk.states += t.distinct
+            chk.transitions += max(t.generated, 1)
+            chk.traces += 1
+            chk.notes.setdefault("graphs", []).append({"mode": m, "policy": g["mode"], "nodes": len(g["nodes"]), "edges": len(g["edges"]),
+                                                       "functions": sum(1 for n in g["nodes"] if n["t"] == "f"),
+                                                       "tlc_states": t.distinct, "works": {k: v for k, v in g["works"].items() if v}})
+            if not t.ok:
+                txt = t.violation or ""
+                if "nvariant" not in txt:
+                    raise vlib.ToolError("LuaCaps failed for mode %r:\n%s" % (m, txt[-2000:]))
+                inv = [l for l in txt.split("\n") if "nvariant" in l]
+                # name what is wrong, from the graph itself
+                extra = []
+                allowed_sandbox = {"assert", "collectgarbage", "error", "getmetatable", "ipairs", "load", "next", "pairs", "pcall", "print",
+                                   "rawequal", "rawget", "rawlen", "rawset", "select", "setmetatable", "tonumber", "tostring", "type", "warn",
+                                   "xpcall", "_G", "_VERSION", "validate", "coroutine", "table", "string", "utf8", "math"}
+                if g["mode"] == "sandbox":
+                    extra = sorted(set(g["globals"]) - allowed_sandbox)
+                chk.violation("mode %r (policy %s): %s; offending globals %s; working capabilities %s" % (
+                    m, g["mode"], "; ".join(inv)[:200], extra, sorted(k for k, v in g["works"].items() if v)),
+                    {"mode": m, "concrete": cases[i], "globals": g["globals"], "works": g["works"]})
     chk.sample({"mode": None, "graph_excerpt": {"globals": "see coverage.graphs"}})
